@@ -56,10 +56,18 @@ Inductive c19case :=
 | SaveKill (k : N) (bufs : list (list N)) (pre : odir) (st : stop)
            (ld : oload) (listed : list (N * oload))
 | DelKill (k : N) (pre : odir) (st : stop) (ld : oload) (listed : list (N * oload))
+(* SaveKill together with the calls strace recorded for the same Save when it was not stopped
+   ([dry], failed calls included): the view is compared with the executable model's calls cut
+   at st and, failing that, with the RECORDED calls cut at st, provided they are disciplined *)
+| SaveKillG (k : N) (bufs : list (list N)) (pre : odir) (dry : list ocall) (st : stop)
+            (ld : oload) (listed : list (N * oload))
 (* the same for values too large for a literal: only key k in the directory;
    nbufs buffers of total bytes in all *)
 | BigKill (k : N) (has_old : bool) (nbufs : N) (total : N) (st : stop) (obs : bigobs)
           (listed_loadable : bool)
+(* BigKill together with the calls recorded for the same Save when it was not stopped *)
+| BigKillG (k : N) (has_old : bool) (nbufs : N) (total : N) (dry : list ocall) (st : stop)
+           (obs : bigobs) (listed_loadable : bool)
 (* List on a directory with arbitrary names, and Load of every listed key *)
 | ListCase (pre : odir) (listed : list (N * oload))
 (* concurrent run: the operations of the one goroutine that owns key k (absent at first),
@@ -169,43 +177,6 @@ Fixpoint conc_agree (k : N) (d : dir) (ops : list cop) : bool :=
   | CListed p :: r => Bool.eqb (mem_N k (list_keys d)) p && conc_agree k d r
   end.
 
-Definition c19_agree (c : c19case) : bool :=
-  match c with
-  | SaveSeq k bufs inj leak pre calls ret_ok post =>
-      let f := fault_of inj bufs in
-      ocalls_eqb (map proj_att (fst (save_atts k bufs f leak))) calls
-      && Bool.eqb (save_ok k bufs f leak) ret_ok
-      && odir_eqb (data_of (run (dir_of pre) (save_calls k bufs f leak))) post
-  | DelSeq k fails pre calls ret_ok post =>
-      let present := match olookup (key_name k) pre with Some _ => true | None => false end in
-      let atts := delete_atts k present fails in
-      ocalls_eqb (map proj_att atts) calls
-      && Bool.eqb (delete_ok present fails) ret_ok
-      && odir_eqb (data_of (run (dir_of pre) (effects atts))) post
-  | SaveKill k bufs pre st ld listed =>
-      view_agree k (run (dir_of pre) (stop_calls st (save_calls k bufs NoFault false))) ld listed
-  | DelKill k pre st ld listed =>
-      view_agree k (run (dir_of pre) (stop_calls st (delete_calls k))) ld listed
-  | BigKill k has_old nbufs total st obs _ =>
-      (* FSProofs.save_cut_calls_closed / save_cut_bytes_closed *)
-      let new_visible := match st with
-                         | AtCall i => negb (i <=? nbufs + 3)
-                         | AtBytes lim => negb (lim <? total)
-                         end in
-      match obs with
-      | BNew => new_visible
-      | BOld => negb new_visible && has_old
-      | BAbsent => negb new_visible && negb has_old
-      | BOther => false
-      end
-  | ListCase pre listed =>
-      let d := dir_of pre in
-      same_keys (map fst listed) (list_keys d)
-      && forallb (fun e => oload_eqb (oload_of (load (fst e) d)) (snd e)) listed
-  | ConcCase k ops => conc_agree k [] ops
-  end.
-
-(* ---- the property, judged on the observation alone ---- *)
 
 (* Nothing becomes visible under the key name except by a rename of the spool file that
    was fsynced after its last write and holds [total] bytes. State: bytes in the spool
@@ -242,6 +213,123 @@ Fixpoint visible_ok (kn sp : fname) (total : N) (calls : list ocall)
       | _ => visible_ok kn sp total r cnt synced renamed
       end
   end.
+
+(* 1-based position of the rename of the spool file onto the key file *)
+Fixpoint rename_pos (kn sp : fname) (calls : list ocall) (i : N) : option N :=
+  match calls with
+  | [] => None
+  | ORename a b true :: r => if name_eqb a sp && name_eqb b kn then Some (i + 1) else rename_pos kn sp r (i + 1)
+  | _ :: r => rename_pos kn sp r (i + 1)
+  end.
+
+Definition big_obs_agree (new_visible has_old : bool) (obs : bigobs) : bool :=
+  match obs with
+  | BNew => new_visible
+  | BOld => negb new_visible && has_old
+  | BAbsent => negb new_visible && negb has_old
+  | BOther => false
+  end.
+
+(* ---- the tie to the CLASS of disciplined traces (FSDiscipline) ----
+   The calls strace recorded, with the contents of the data writes rebuilt from the record:
+   the descriptor writes sequentially, so the piece at offset [off] of [data] is what a write
+   of cnt bytes carried (the directory found afterwards is compared, which checks this).
+   Failed calls have no effect and are dropped; a creat starts the file anew. *)
+Fixpoint rebuild (data : list N) (off : nat) (calls : list ocall) : list syscall :=
+  match calls with
+  | [] => []
+  | OCreat n true :: r => Creat n :: rebuild data 0 r
+  | OWrite n cnt true :: r =>
+      let c := N.to_nat cnt in Write n (firstn c (skipn off data)) :: rebuild data (off + c) r
+  | OFsync n true :: r => Fsync n :: rebuild data off r
+  | OClose n true :: r => Close n :: rebuild data off r
+  | ORename a b true :: r => Rename a b :: rebuild data off r
+  | OUnlink n true :: r => Unlink n :: rebuild data off r
+  | ORmdir n true :: r => Rmdir n :: rebuild data off r
+  | _ :: r => rebuild data off r
+  end.
+
+(* no call outside the vocabulary on the key file or its spool file *)
+Definition no_other_on (kn sp : fname) (calls : list ocall) : bool :=
+  forallb (fun c => match c with
+                    | OOther n => negb (name_eqb n kn || name_eqb n sp)
+                    | _ => true
+                    end) calls.
+
+(* the recorded calls of a Save are a disciplined trace for (k, concat bufs) *)
+Definition dry_disciplined (k : N) (bufs : list (list N)) (calls : list ocall) : bool :=
+  no_other_on (key_name k) (spool_name k) calls
+  && disciplined (key_name k) (spool_name k) (concat bufs) dst0 (rebuild (concat bufs) 0 calls).
+
+(* Save under a fault, judged against the class instead of the one executable member: the
+   recorded calls are disciplined, Save returned nil exactly when the rename happened, and the
+   directory found afterwards is the model directory after the recorded calls *)
+Definition save_seq_gen (k : N) (bufs : list (list N)) (pre : odir) (calls : list ocall)
+           (ret_ok : bool) (post : odir) : bool :=
+  let l := rebuild (concat bufs) 0 calls in
+  dry_disciplined k bufs calls
+  && Bool.eqb ret_ok (renamed_in (key_name k) (spool_name k) l)
+  && odir_eqb (data_of (run (dir_of pre) l)) post.
+
+Definition c19_agree (c : c19case) : bool :=
+  match c with
+  | SaveSeq k bufs inj leak pre calls ret_ok post =>
+      let f := fault_of inj bufs in
+      (ocalls_eqb (map proj_att (fst (save_atts k bufs f leak))) calls
+       && Bool.eqb (save_ok k bufs f leak) ret_ok
+       && odir_eqb (data_of (run (dir_of pre) (save_calls k bufs f leak))) post)
+      || save_seq_gen k bufs pre calls ret_ok post
+  | DelSeq k fails pre calls ret_ok post =>
+      let present := match olookup (key_name k) pre with Some _ => true | None => false end in
+      let atts := delete_atts k present fails in
+      ocalls_eqb (map proj_att atts) calls
+      && Bool.eqb (delete_ok present fails) ret_ok
+      && odir_eqb (data_of (run (dir_of pre) (effects atts))) post
+  | SaveKill k bufs pre st ld listed =>
+      view_agree k (run (dir_of pre) (stop_calls st (save_calls k bufs NoFault false))) ld listed
+  | DelKill k pre st ld listed =>
+      view_agree k (run (dir_of pre) (stop_calls st (delete_calls k))) ld listed
+  | SaveKillG k bufs pre dry st ld listed =>
+      view_agree k (run (dir_of pre) (stop_calls st (save_calls k bufs NoFault false))) ld listed
+      || (dry_disciplined k bufs dry
+          && view_agree k (run (dir_of pre) (stop_calls st (rebuild (concat bufs) 0 dry))) ld listed)
+  | BigKill k has_old nbufs total st obs _ =>
+      (* FSProofs.save_cut_calls_closed / save_cut_bytes_closed *)
+      let new_visible := match st with
+                         | AtCall i => negb (i <=? nbufs + 3)
+                         | AtBytes lim => negb (lim <? total)
+                         end in
+      match obs with
+      | BNew => new_visible
+      | BOld => negb new_visible && has_old
+      | BAbsent => negb new_visible && negb has_old
+      | BOther => false
+      end
+  | BigKillG k has_old nbufs total dry st obs _ =>
+      big_obs_agree (match st with
+                     | AtCall i => negb (i <=? nbufs + 3)
+                     | AtBytes lim => negb (lim <? total)
+                     end) has_old obs
+      || (let kn := key_name k in
+          let sp := spool_name k in
+          (* by counts: the recorded calls keep the discipline, and the new value is visible
+             from the rename on *)
+          fst (visible_ok kn sp total dry 0 false false)
+          && match rename_pos kn sp dry 0 with
+             | Some r => big_obs_agree (match st with
+                                        | AtCall i => r <=? i
+                                        | AtBytes lim => negb (lim <? total)
+                                        end) has_old obs
+             | None => false
+             end)
+  | ListCase pre listed =>
+      let d := dir_of pre in
+      same_keys (map fst listed) (list_keys d)
+      && forallb (fun e => oload_eqb (oload_of (load (fst e) d)) (snd e)) listed
+  | ConcCase k ops => conc_agree k [] ops
+  end.
+
+(* ---- the property, judged on the observation alone ---- *)
 
 (* entries under other names are the same in both directories *)
 Definition others_same (kn sp : fname) (a b : odir) : bool :=
@@ -302,7 +390,16 @@ Definition c19_ok (c : c19case) : bool :=
       && others_same kn kn pre post
   | SaveKill k bufs pre st ld listed => view_ok k pre (Some (concat bufs)) ld listed
   | DelKill k pre st ld listed => view_ok k pre None ld listed
+  | SaveKillG k bufs pre _ st ld listed => view_ok k pre (Some (concat bufs)) ld listed
   | BigKill k has_old nbufs total st obs listed_loadable =>
+      listed_loadable
+      && match obs with
+         | BNew => true
+         | BOld => has_old
+         | BAbsent => negb has_old
+         | BOther => false
+         end
+  | BigKillG k has_old nbufs total _ st obs listed_loadable =>
       listed_loadable
       && match obs with
          | BNew => true
